@@ -14,6 +14,7 @@ pub static DEF: PropDef = PropDef {
     assumptions: &["-sorted is always given (the statement defines the order only with it)", "-delete is exercised in C10 (it implies -depth); here -depth/-d are given explicitly"],
     run,
     replay,
+    fuzz: None,
 };
 
 #[derive(Serialize, Deserialize, Debug, Clone)]
